@@ -739,6 +739,12 @@ func specOffsetHour(val string, idx int) int64   { h, _, _ := computeOffset(val,
 func specOffsetMinute(val string, idx int) int64 { _, m, _ := computeOffset(val, idx); return m }
 func specOffsetErr(val string, idx int) error    { _, _, e := computeOffset(val, idx); return e }
 
+// The Reader's current integer as its (pure) accessors report it.
+func specInt64Of(r Reader) *int64  { v, _ := r.Int64Value(); return v }
+func specInt64Err(r Reader) error  { _, e := r.Int64Value(); return e }
+func specBigOf(r Reader) *big.Int  { v, _ := r.BigIntValue(); return v }
+func specBigErr(r Reader) error    { _, e := r.BigIntValue(); return e }
+
 // specPow10: 10^k for k <= 9.
 func specPow10(k uint8) int {
 	switch k {
